@@ -188,6 +188,34 @@ def ref_region(t, p):
     return 2
 
 
+def ref_tsat(p):
+    """temperature (degC) with ref_psat(t) = p, by bisection on the independent reference"""
+    lo, hi = 0.0, TC_K - T0
+    for _ in range(200):
+        m = 0.5 * (lo + hi)
+        if not (lo < m < hi): break
+        if ref_psat(m) < p: lo = m
+        else: hi = m
+    return 0.5 * (lo + hi)
+
+
+def ref_b23t(p):
+    return _N23[3] + math.sqrt((p / 1e6 - _N23[4]) / _N23[2]) - T0
+
+
+def neighbours(x):
+    """x itself, 1, 2 and 4 ulps, and 1e-12, 1e-9, 1e-6 (relative) on both sides"""
+    out = [x]
+    for up in (True, False):
+        y = x
+        for k in range(4):
+            y = nextafter(y, up)
+            if k in (0, 1, 3): out.append(y)
+    for r in (1e-12, 1e-9, 1e-6):
+        out += [x * (1 + r), x * (1 - r)] if x != 0 else [r, -r]
+    return out
+
+
 # ------------------------------------------------------------------ density solvers on the real region-3 function
 
 def solve_d(I, t, p, branch):
@@ -401,7 +429,11 @@ def o_monotone(I, c):
 
 
 def o_visc(I, c):
-    mu = need(I, 'visc', c['d'], c['t'])
+    try:
+        mu = need(I, 'visc', c['d'], c['t'])
+    except NoValue as e:
+        where = ':critical-density' if c['d'] == float(I.dcritical) else ''
+        return [V('viscosity-raises' + where, 'visc(%r, %r) %s' % (c['d'], c['t'], e.why), c)]
     if not (mu > 0 and math.isfinite(mu)):
         return [V('viscosity-not-positive', 'visc(%r, %r) = %r' % (c['d'], c['t'], float(mu)), c)]
     return []
@@ -453,7 +485,30 @@ def o_region(I, c):
     return []
 
 
-CLAUSES = {'sat_tsat': o_sat_tsat, 'tsat_sat': o_tsat_sat, 'b23': o_b23, 'potential_fd': o_potential_fd,
+def o_continuity(I, c):
+    """inside a region a routine is continuous: the change of every returned value across [x(1-d), x(1+d)] must be
+    comparable with its change over the two neighbouring intervals of the same width (d = 1e-9 relative)"""
+    fn, args, k = c['fn'], list(c['args']), c['var']
+    x, d = args[k], c.get('rel', 1e-9)
+    vals = []
+    for f in (1 - 3 * d, 1 - d, 1 + d, 1 + 3 * d):
+        a = list(args); a[k] = x * f
+        r = need(I, fn, *a)
+        vals.append([float(v) for v in r] if isinstance(r, tuple) else [float(r)])
+    out = []
+    for j in range(len(vals[0])):
+        v = [vals[i][j] for i in range(4)]
+        if not all(math.isfinite(z) for z in v):
+            out.append(V('discontinuity:%s' % fn, '%s%r: value %d is not finite next to %r' % (fn, tuple(args), j, x), c)); continue
+        jump, smooth = abs(v[2] - v[1]), max(abs(v[1] - v[0]), abs(v[3] - v[2]))
+        scale = max(abs(z) for z in v)
+        if jump > 20 * smooth + 1e-10 * scale:
+            out.append(V('discontinuity:%s' % fn, '%s jumps at argument %d = %r (other arguments %r): value %d goes %r -> %r across +-%g relative, '
+                         'but changes by only %.3g over the neighbouring intervals' % (fn, k, x, [a for i, a in enumerate(args) if i != k], j, v[1], v[2], d, smooth), c))
+    return out
+
+
+CLAUSES = {'continuity': o_continuity, 'sat_tsat': o_sat_tsat, 'tsat_sat': o_tsat_sat, 'b23': o_b23, 'potential_fd': o_potential_fd,
            'monotone': o_monotone, 'visc': o_visc, 'boundary': o_boundary, 'region': o_region}
 
 
@@ -465,7 +520,9 @@ VERIF_STATES = {  # the published verification states (region, args)
     'super': [(500., 650 - T0), (200., 650 - T0), (500., 750 - T0)],
     'sat': [(300 - T0,), (500 - T0,), (600 - T0,)],
     'tsat': [(0.1e6,), (1e6,), (10e6,)],
-    'visc': [(998., 298.15 - T0), (1200., 298.15 - T0), (1000., 373.15 - T0), (600., 873.15 - T0), (100., 1173.15 - T0)],
+    'visc': [(998., 298.15 - T0), (1200., 298.15 - T0), (1000., 373.15 - T0), (600., 873.15 - T0), (100., 1173.15 - T0),
+             # exactly the critical density / temperature: bases of two power arrays are exactly zero (fixed defect 7cb2fd9)
+             (322., 0.01), (322., 100.), (322., 373.946), (322., 800.), (500., 373.946), (322., 647.096 - T0)],
 }
 
 
@@ -605,7 +662,7 @@ def run(ctx, scale=1.0, oracle_only=False):
                 chains.append((nm, v))
         preqs = []
         for nm, ch in chains:
-            for v in [0.5, 2.0, -1.5, 1.0, 7.1 - 3e6 / 16.53e6, 1e-3, 3.0, rng.uniform(0.1, 5), -rng.uniform(0.1, 5)]:
+            for v in [0.5, 2.0, -1.5, 1.0, 7.1 - 3e6 / 16.53e6, 1e-3, 3.0, 0.0, -0.0, rng.uniform(0.1, 5), -rng.uniform(0.1, 5)]:
                 preqs.append((nm, ch, v))
         for k in range(int(ctx.n(300, 5000) * scale)):
             preqs.append(('random', random_chain(rng), rng.choice([rng.uniform(-3, 3), 10 ** rng.uniform(-2, 2), 1.0, -1.0])))
@@ -642,7 +699,7 @@ def run(ctx, scale=1.0, oracle_only=False):
                 f2['cases'] += 1
                 if w == 'true': nwf += 1
                 if a.startswith('exc'):
-                    okk = (a == 'exc ZeroDivisionError' and v == 0.0)
+                    okk = False          # power_array raises on no input of this stream (a zero base gives p[-1] = inf)
                 else:
                     okk = same('pair ' + a, 'pair ' + b)
                 if not okk:
@@ -819,7 +876,11 @@ def oracle(ctx, I, res, rng, scale=1.0):
                 dv, dl = satd[math.floor(t * 10) / 10]
                 ok = not (dv * 0.97 < d2 < dl * 1.03) and ((d2 > dl) == (d > dl))
             if ok: apply('monotone', {'region': 3, 't': t, 'd1': lo, 'd2': hi})
-    # viscosity over the whole (d, t) rectangle as well
+    # viscosity over the whole (d, t) rectangle as well, and exactly on the critical isochore / isotherm
+    for t in [0.01, 100., 373.946, float(I.tcritical), 500., 800.] + [rng.uniform(0.01, 800.) for _ in range(4)]:
+        apply('visc', {'d': float(I.dcritical), 't': t})
+    for d in [1e-3, 1., 322., 1000.]:
+        apply('visc', {'d': d, 't': float(I.tcriticalk) - float(I.tc_k)})
     for _ in range(n(500, 20000)):
         apply('visc', {'d': rng.choice([rng.uniform(1e-3, 1100.), 10 ** rng.uniform(-4, 3.04)]), 't': rng.uniform(0.01, 800.)})
     # boundary consistency
@@ -857,6 +918,132 @@ def oracle(ctx, I, res, rng, scale=1.0):
     for t, p in cases:
         apply('region', {'t': t, 'p': p})
     res.hyp['single_potential_r1/r2/r3: bases of the power arrays non-zero (oracle states of the three regions)'] = [len(states), len(states)]
+    singular_stage(ctx, I, res, rng, apply, CD, n)
+
+
+FNS14 = ['cowat', 'supst', 'super', 'sat', 'tsat', 'visc', 'b23p', 'b23t', 'region']
+
+
+def singular_stage(ctx, I, res, rng, apply, CD, n):
+    """singularity-directed search.  Every denominator, square-root argument, power_array base and comparison of the
+    translated routines (or, when the source can no longer be translated, every comparison against a numeric constant
+    found in the real functions' AST and evaluated in the running frame) is followed along lines through the routine's
+    domain; at every root (sign change / zero / isolated near-zero) the property clauses are evaluated at the root, a
+    few ulps and 1e-12, 1e-9, 1e-6 relative around it, at the pre-image through the partner function for the inverse
+    pairs, and the routine is tested for a jump across the root."""
+    try:
+        MI, _ = thermo.modules(core.REPO)
+        P, mode = thermo.Prober(MI), 'translated-tree'
+    except Exception as e:
+        P, mode = thermo.TraceProber(I, core.REPO / 'IAPWS97.py', FNS14), 'real-code-comparisons'
+        ctx.notes.append('singularity stage falls back to comparisons traced in the real code (translator failed)')
+    tc = float(TC_K - T0)
+    N = n(160, 500) if mode == 'translated-tree' else n(60, 200)
+    plo = ref_psat(0.01) * (1 + 1e-12)
+    lines = [('sat', lambda x: (x,), 0, 0.01, tc, False), ('tsat', lambda x: (x,), 0, plo, PC, True),
+             ('b23p', lambda x: (x,), 0, 350., 590., False), ('b23t', lambda x: (x,), 0, ref_b23p(350.), 100e6, False)]
+    tl = [0.01, 60., 150., 250., 330., 350.] + [rng.uniform(0.01, 350.) for _ in range(2)]
+    for t in tl:
+        lines.append(('cowat', (lambda t_: lambda x: (t_, x))(t), 1, ref_psat(t) * (1 + 1e-9), 100e6, True))
+    for p in [1e5, 1e6, 1e7, 5e7, 100e6] + [10 ** rng.uniform(5, 8)]:
+        thi = 350. if p >= ref_psat(350.) else ref_tsat(p) * (1 - 1e-9)
+        if thi > 0.02: lines.append(('cowat', (lambda p_: lambda x: (x, p_))(p), 0, 0.01, thi, False))
+    for t in [0.01, 100., 300., 350., 450., 590., 700., 800.] + [rng.uniform(0.01, 800.) for _ in range(2)]:
+        pmax = ref_psat(t) * (1 - 1e-9) if t <= 350. else (min(ref_b23p(t) * (1 - 1e-9), 100e6) if t <= 590. else 100e6)
+        lines.append(('supst', (lambda t_: lambda x: (t_, x))(t), 1, 1.0, pmax, True))
+    for p in [1.0, 1e3, 1e5, 1e6, 1e7, 5e7, 100e6] + [10 ** rng.uniform(0, 8)]:
+        tlo = ref_tsat(p) * (1 + 1e-9) if p < ref_psat(350.) else (ref_b23t(p) * (1 + 1e-9) if p < ref_b23p(590.) else 590.0001)
+        lines.append(('supst', (lambda p_: lambda x: (x, p_))(p), 0, max(tlo, 0.01), 800., False))
+    for t in [375., 400., 500., 590.] + [rng.uniform(374., 590.)]:
+        lines.append(('super', (lambda t_: lambda x: (x, t_))(t), 0, 50., 800., False))
+    for d in [150., 322., 500., 700.] + [rng.uniform(100., 750.)]:
+        lines.append(('super', (lambda d_: lambda x: (d_, x))(d), 1, 374., 590., False))
+    for d in [1e-3, 1., 322., 1000.]:
+        lines.append(('visc', (lambda d_: lambda x: (d_, x))(d), 1, 0.01, 800., False))
+    for t in [0.01, 373.946, 800.]:
+        lines.append(('visc', (lambda t_: lambda x: (x, t_))(t), 0, 1e-3, 1100., True))
+    for t in [0.01, 100., 349., 351., 500., 600., 800.]:
+        lines.append(('region', (lambda t_: lambda x: (t_, x))(t), 1, 1e-3, 101e6, True))
+    for p in [1.0, 1e5, 1e7, 2e7, 5e7, 100e6]:
+        lines.append(('region', (lambda p_: lambda x: (x, p_))(p), 0, 0.001, 801., False))
+
+    def single_phase3(d, t):
+        try:
+            p = float(need(I, 'super', d, t)[0])
+        except NoValue:
+            return False
+        return t >= tc + 0.01 and t <= 590. and ref_b23p(t) * (1 + 1e-9) < p <= 100e6
+
+    def inside(fn, a):
+        """is the state inside the region of this routine (independent reference)?"""
+        if fn == 'cowat': return a[1] > 0 and ref_region(a[0], a[1]) == 1
+        if fn == 'supst': return a[1] > 0 and ref_region(a[0], a[1]) == 2
+        if fn == 'super': return a[0] > 0 and single_phase3(a[0], a[1])
+        if fn == 'visc': return 0.01 <= a[1] <= 800. and 0 < a[0] <= 1100.
+        if fn == 'sat': return 0.01 <= a[0] <= tc
+        if fn == 'tsat': return plo <= a[0] <= PC
+        if fn == 'b23p': return 350. <= a[0] <= 590.
+        if fn == 'b23t': return ref_b23p(350.) <= a[0] <= ref_b23p(590.)
+        return True
+
+    def at_point(fn, a):
+        if fn == 'region':
+            apply('region', {'t': a[0], 'p': a[1]}); return
+        if not inside(fn, a): return
+        if fn == 'sat':
+            apply('sat_tsat', {'t': a[0]})
+        elif fn == 'tsat':
+            apply('tsat_sat', {'p': a[0]})
+        elif fn in ('b23p', 'b23t'):
+            apply('b23', {'t': a[0]} if fn == 'b23p' else {'p': a[0]})
+        elif fn in ('cowat', 'supst'):
+            c = {'region': 1 if fn == 'cowat' else 2, 't': a[0], 'p': a[1]}
+            if CD is not None: apply('potential_tree', c, lambda I_, cc: o_potential_tree(I_, CD, cc))
+            else: apply('finite', {'fn': fn, 'args': list(a)}, o_finite)
+            apply('region', {'t': a[0], 'p': a[1]})
+        elif fn == 'super':
+            c = {'region': 3, 'd': a[0], 't': a[1]}
+            if CD is not None: apply('potential_tree', c, lambda I_, cc: o_potential_tree(I_, CD, cc))
+            else: apply('finite', {'fn': fn, 'args': list(a)}, o_finite)
+        elif fn == 'visc':
+            apply('visc', {'d': a[0], 't': a[1]})
+
+    seen = set()
+    for fn, mk, var, lo, hi, log in lines:
+        if not lo < hi: continue
+        for key, x, kind in thermo.find_roots(P, fn, mk, lo, hi, n=N, log=log):
+            tag = (fn, key, repr(x))
+            if tag in seen: continue
+            seen.add(tag)
+            res.count('singular-point:%s:%s:%s' % (mode, key.split('#')[0].split('@')[0], kind))
+            res.sample({'singular point': P.describe(key), 'at': list(mk(x)), 'kind': kind}, cap=14)
+            for xn in neighbours(x):
+                at_point(fn, mk(xn))
+            # the pre-image through the partner function, for the inverse pairs
+            if fn == 'tsat' and plo <= x <= PC:
+                for tn in neighbours(ref_tsat(x)): at_point('sat', (tn,))
+            if fn == 'sat' and 0.01 <= x <= tc:
+                for pn in neighbours(ref_psat(x)): at_point('tsat', (pn,))
+            if fn == 'b23t' and ref_b23p(350.) <= x <= ref_b23p(590.):
+                for tn in neighbours(ref_b23t(x)): at_point('b23p', (tn,))
+            if fn == 'b23p' and 350. <= x <= 590.:
+                for pn in neighbours(ref_b23p(x)): at_point('b23t', (pn,))
+            # a jump across the root (only where all four evaluation points lie inside the routine's region)
+            if fn != 'region' and x != 0:
+                a0 = list(mk(x))
+                pts = []
+                for f in (1 - 3e-9, 1 - 1e-9, 1 + 1e-9, 1 + 3e-9):
+                    b = list(a0); b[var] = x * f; pts.append(b)
+                if all(inside(fn, b) for b in pts):
+                    apply('continuity', {'fn': fn, 'args': a0, 'var': var})
+
+
+def o_finite(I, c):
+    r = need(I, c['fn'], *c['args'])
+    vals = r if isinstance(r, tuple) else (r,)
+    if not all(math.isfinite(float(v)) for v in vals):
+        return [V('not-finite:%s' % c['fn'], '%s%r = %r' % (c['fn'], tuple(c['args']), r), c)]
+    return []
 
 
 def search(ctx, seconds, res):
@@ -882,7 +1069,9 @@ def replay(ctx, payload):
     if not name:
         return False, 'replay file names what no longer checks: %s' % payload.get('broken')
     try:
-        if name == 'need':
+        if name == 'finite':
+            r = o_finite(I, c)
+        elif name == 'need':
             need(I, c['fn'], *c['args']); r = []
         elif name == 'potential_tree':
             MI, _ = thermo.modules(core.REPO)
